@@ -10,17 +10,42 @@
 (* the raw event lists (B1).                                                 *)
 (***************************************************************************)
 EXTENDS Grammar, Json
-CONSTANTS Alpha,      \* set of token kinds
-          MaxLen,
+CONSTANTS Fams,       \* set of <<alphabet name, MaxLen>>: the families of token sequences to explore
           Emit
-Init == toks = <<>>
-Grow == \E k \in Alpha, j \in BOOLEAN : Len(toks) < MaxLen /\ toks' = Append(toks, [k |-> k, j |-> j])
+VARIABLE fam             \* the family the current sequence belongs to (chosen initially)
+(* alphabets (token kinds); every sequence over an alphabet up to MaxLen is one state *)
+A_expr == {"IDENT", "INT_NUMBER", "PLUS", "STAR", "EQ", "L_PAREN", "R_PAREN", "SEMICOLON", "MINUS", "L_BRACK", "R_BRACK", "COMMA"}
+A_prec == {"IDENT", "PLUS", "STAR", "MINUS", "L_ANGLE", "SEMICOLON"}      \* long enough sequences to see precedence and associativity
+A_ops  == {"IDENT", "INT_NUMBER", "PIPE", "AMP", "L_ANGLE", "R_ANGLE", "EQ", "BANG", "DOT", "CARET", "PERCENT", "SLASH", "TILDE", "PLUS", "SEMICOLON"}
+A_decl == {"INT_TY", "FLOAT_TY", "COMPLEX_TY", "ARRAY_KW", "CONST_KW", "QUBIT_KW", "IDENT", "INT_NUMBER", "L_BRACK", "R_BRACK", "EQ", "SEMICOLON", "COMMA",
+           "L_PAREN", "L_CURLY", "R_CURLY", "DIM_KW", "HARDWAREIDENT"}
+A_ctrl == {"IF_KW", "ELSE_KW", "WHILE_KW", "FOR_KW", "IN_KW", "L_PAREN", "R_PAREN", "L_CURLY", "R_CURLY", "IDENT", "INT_TY", "SEMICOLON", "L_BRACK", "COLON",
+           "R_BRACK", "INT_NUMBER"}
+A_def  == {"GATE_KW", "DEF_KW", "DEFCAL_KW", "EXTERN_KW", "IDENT", "HARDWAREIDENT", "L_PAREN", "R_PAREN", "L_CURLY", "R_CURLY", "COMMA", "MINUS", "R_ANGLE",
+           "INT_TY", "SEMICOLON", "QUBIT_KW", "MUTABLE_KW", "READONLY_KW", "ARRAY_KW", "CREG_KW", "QREG_KW"}
+A_call == {"INV_KW", "POW_KW", "CTRL_KW", "NEGCTRL_KW", "AT", "GPHASE_KW", "IDENT", "HARDWAREIDENT", "L_PAREN", "R_PAREN", "INT_NUMBER", "SEMICOLON", "MEASURE_KW",
+           "RESET_KW", "BARRIER_KW", "L_BRACK", "R_BRACK", "COMMA", "EQ"}
+A_misc == {"INCLUDE_KW", "STRING", "PRAGMA", "ANNOTATION", "VERSION_STRING", "O_P_E_N_Q_A_S_M_KW", "FLOAT_NUMBER", "LET_KW", "DELAY_KW", "SWITCH_KW", "CASE_KW",
+           "DEFAULT_KW", "CAL_KW", "DEFCALGRAMMAR_KW", "INPUT_KW", "OUTPUT_KW", "QREG_KW", "CREG_KW", "BREAK_KW", "CONTINUE_KW", "END_KW", "RETURN_KW", "BOX_KW",
+           "IDENT", "SEMICOLON", "L_CURLY", "R_CURLY", "L_BRACK", "R_BRACK", "EQ", "INT_TY", "BIT_STRING", "TRUE_KW", "UNDERSCORE", "ERROR", "L_PAREN", "R_PAREN"}
+(* every token kind the lexer can produce (91) *)
+A_all == A_expr \cup A_ops \cup A_decl \cup A_ctrl \cup A_def \cup A_call \cup A_misc \cup
+         {"QUESTION", "DOLLAR", "POUND", "BYTE", "CHAR", "FALSE_KW", "ANGLE_TY", "BIT_TY", "BOOL_TY", "DURATION_TY", "STRETCH_TY", "UINT_TY", "VOID_KW",
+          "PRAGMA_KW", "COMMENT", "WHITESPACE"}
+AlphaOf(n) == CASE n = "expr" -> A_expr [] n = "prec" -> A_prec [] n = "ops" -> A_ops [] n = "decl" -> A_decl [] n = "ctrl" -> A_ctrl [] n = "def" -> A_def
+                  [] n = "call" -> A_call [] n = "misc" -> A_misc [] n = "all" -> A_all
+Fams_quick == {<<"expr", 3>>, <<"prec", 5>>, <<"ops", 3>>, <<"decl", 3>>, <<"ctrl", 3>>, <<"def", 3>>, <<"call", 3>>, <<"misc", 2>>, <<"all", 2>>}
+Fams_thorough == {<<"expr", 4>>, <<"prec", 5>>, <<"ops", 4>>, <<"decl", 3>>, <<"ctrl", 4>>, <<"def", 3>>, <<"call", 3>>, <<"misc", 3>>, <<"all", 2>>}
+Fams_sim == {<<"expr", 16>>, <<"prec", 16>>, <<"ops", 16>>, <<"decl", 16>>, <<"ctrl", 16>>, <<"def", 16>>, <<"call", 16>>, <<"misc", 16>>, <<"all", 16>>}
+Init == toks = <<>> /\ fam \in Fams
+Grow == \E k \in AlphaOf(fam[1]), j \in BOOLEAN : Len(toks) < fam[2] /\ toks' = Append(toks, [k |-> k, j |-> j]) /\ fam' = fam
 Next == Grow
-Spec == Init /\ [][Next]_toks
+Spec == Init /\ [][Next]_<<toks, fam>>
 
 (* the tokens the events consume, in order, are exactly the input (losslessness at the event level) *)
 RECURSIVE SumTok(_, _)
 SumTok(ev, i) == IF i > Len(ev) THEN 0 ELSE (IF ev[i].tag = "token" THEN ev[i].n ELSE 0) + SumTok(ev, i + 1)
 C01_Model == LET p == Parsed IN ReturnsNormally(p) /\ ConsumesAll(p) /\ MarkersDischarged(p) /\ LinearWork(p) /\ SumTok(p.ev, 1) = Len(toks)
-Export == Emit => LET p == Parsed IN PrintT(<<"CASE", ToJson([toks |-> toks, ev |-> p.ev, bad |-> p.bad])>>)
+(* in simulation only the end of each walk is exported *)
+Export == (Emit /\ (fam[2] < 16 \/ Len(toks) >= 8)) => LET p == Parsed IN PrintT(<<"CASE", ToJson([fam |-> fam[1], toks |-> toks, ev |-> p.ev, bad |-> p.bad])>>)
 =============================================================================
